@@ -1,7 +1,7 @@
 (** C17 property theorems (statements only; the proofs are in Proofs_*.v). *)
 From Coq Require Import ZArith List Bool.
 From AwkV Require Import Base Layout Valid Types Carry.
-From AwkTypes Require Import Json Forms TypeStr Typing Proofs_Depth Proofs_Types Proofs_Typing.
+From AwkTypes Require Import Json Forms TypeStr Typing Proofs_Depth Proofs_Types Proofs_Typing Proofs_Json Proofs_Parse.
 Import ListNotations.
 Open Scope Z_scope.
 
@@ -58,3 +58,20 @@ Print Assumptions carry_preserves_type_thm.
 Theorem getitem_range_preserves_type : forall c a b c', crange c a b = Ok c' -> type_of c' = type_of c.
 Proof. exact (fun c a b c' H => carry_preserves_type c None (range a b) c' H). Qed.
 Print Assumptions getitem_range_preserves_type.
+
+(* (c) A form of an existing node class (form_wf: parameters as a std::map, index widths of an existing array class,
+   NumpyForm fields consistent with its dtype, sizes within int, no NUL in keys) survives Form -> JSON -> Form, in the
+   compact and in the verbose rendering, with parameters holding arbitrary JSON values. *)
+Theorem form_json_roundtrip : forall f verbose,
+  form_wf f = true -> form_fromjson (form_tojson verbose f) = Ok f.
+Proof. exact form_json_roundtrip_thm. Qed.
+Print Assumptions form_json_roundtrip.
+
+(* (d) A type of the printable fragment (no parameters / typestrs except: the four types the default typestrs
+   abbreviate -- string, bytes, char, byte --, and a record name that is a "name" and not a reserved word; regular
+   sizes >= 0; keys byte strings; no empty named tuple) survives printing and re-parsing: lists, regular, option
+   (both spellings), unions, records, tuples, named records and tuples, all 18 primitive names, unknown. *)
+Theorem type_print_parse_roundtrip : forall t,
+  printable t = true -> type_parse (type_tostring t) = Ok t.
+Proof. exact type_print_parse_roundtrip_thm. Qed.
+Print Assumptions type_print_parse_roundtrip.
